@@ -192,6 +192,16 @@ Theorem mediatype_wellformed :
 Proof. exact mediatype_wellformed_proof. Qed.
 Print Assumptions mediatype_wellformed.
 
+(* The same with optional spaces, i.e. the grammar of well-formed unquoted values that mime accepts:
+   OWS type *( OWS ";" OWS key "=" value ) OWS with non-empty values.  The result is the mimetype
+   behind the leading spaces and exactly the (key, value) pairs. *)
+Theorem mediatype_wellformed_ows :
+  forall sp0 ty sp1 p ps,
+    spaces sp0 -> 3 <= len ty -> Forall (fun c => c <> 59 /\ c <> 32) ty -> spaces sp1 -> Forall wp_ok (p :: ps) ->
+    mediatype (sp0 ++ ty ++ sp1 ++ render_ows (p :: ps)) = Ok (len sp0, len ty, Some (rev (map wp_kv (p :: ps)))).
+Proof. exact mediatype_wellformed_ows_proof. Qed.
+Print Assumptions mediatype_wellformed_ows.
+
 (* ---- hash tables -------------------------------------------------------------------------------------- *)
 (* Both generated tables are perfect: every Hash constant has a non-empty text and ToHash maps
    that text back to the constant (finite: 7 css and 10 html constants, re-checked on every run
